@@ -437,3 +437,55 @@ Lemma ex_rnet_nontrivial :
   /\ save_raw o_id ex_rnet = save_raw (o_rot 1) ex_rnet
   /\ List.length (save_raw o_id ex_rnet) = 39%nat.
 Proof. repeat split; try (vm_compute; reflexivity). intro H. vm_compute in H. discriminate H. Qed.
+
+(* ------------------------------------------------------------------ boolean well-formedness *)
+Lemma nodupb_sound : forall {A} (eqb : A -> A -> bool), (forall a b, eqb a b = true <-> a = b) ->
+  forall l, nodupb eqb l = true -> NoDup l.
+Proof.
+  intros A eqb Heq. induction l as [|x r IH]; intro H; [constructor|].
+  cbn [nodupb] in H. apply andb_true_iff in H as [H1 H2]. constructor; [|now apply IH].
+  intro Hin. apply negb_true_iff in H1.
+  assert (Ht : existsb (eqb x) r = true) by (apply existsb_exists; exists x; split; [assumption|now apply Heq]).
+  congruence.
+Qed.
+
+Lemma forallb_Forall : forall {A} (p : A -> bool) (P : A -> Prop) l,
+  Forall (fun x => p x = true -> P x) l -> forallb p l = true -> Forall P l.
+Proof.
+  induction 1 as [|x r Hx _ IH]; intro H; [constructor|].
+  cbn [forallb] in H. apply andb_true_iff in H as [H1 H2]. constructor; auto.
+Qed.
+
+Lemma wf_attrsb_sound : forall l, wf_attrsb l = true -> wf_attrs l.
+Proof. intros l H. apply (nodupb_sound String.eqb String.eqb_eq), H. Qed.
+Lemma wf_enumb_sound : forall e, wf_enumb e = true -> wf_enum e.
+Proof. intros e H. apply (nodupb_sound Z.eqb Z.eqb_eq), H. Qed.
+
+Lemma wf_sigb_sound : forall s, wf_sigb s = true -> wf_sig s.
+Proof.
+  induction s as [h a n d r ty un|h a n d r sz en|h a n d r gc gs fx groups IH] using rsig_ind';
+    cbn [wf_sigb]; intro H.
+  - constructor. now apply wf_attrsb_sound.
+  - apply andb_true_iff in H as [H1 H2]. constructor; [now apply wf_attrsb_sound|now apply wf_enumb_sound].
+  - apply andb_true_iff in H as [H1 H2]. constructor; [now apply wf_attrsb_sound|].
+    revert H2. apply forallb_Forall. eapply Forall_impl; [|exact IH].
+    intros g Hg. apply forallb_Forall. exact Hg.
+Qed.
+
+Lemma wf_netb_sound : forall r, wf_netb r = true -> wf_net r.
+Proof.
+  intros r H. unfold wf_netb in H. apply andb_true_iff in H as [H1 H2].
+  split; [apply (nodupb_sound String.eqb String.eqb_eq), H1|].
+  revert H2. apply forallb_Forall, Forall_forall. intros b _ Hb.
+  unfold wf_busb in Hb. apply andb_true_iff in Hb as [B1 B]. apply andb_true_iff in B as [B2 B3].
+  repeat split; [now apply wf_attrsb_sound|apply (nodupb_sound Z.eqb Z.eqb_eq), B2|].
+  revert B3. apply forallb_Forall, Forall_forall. intros x _ Hx.
+  unfold wf_nifb in Hx. apply andb_true_iff in Hx as [X1 X]. apply andb_true_iff in X as [X2 X3].
+  repeat split; [now apply wf_attrsb_sound|apply (nodupb_sound String.eqb String.eqb_eq), X2|].
+  revert X3. apply forallb_Forall, Forall_forall. intros m _ Hm.
+  unfold wf_msgb in Hm. apply andb_true_iff in Hm as [M1 M]. apply andb_true_iff in M as [M2 M].
+  apply andb_true_iff in M as [M3 M4].
+  repeat split; [now apply wf_attrsb_sound|apply (nodupb_sound String.eqb String.eqb_eq), M2| |].
+  - revert M3. apply forallb_Forall, Forall_forall. intros rc _ Hrc. now apply wf_attrsb_sound.
+  - revert M4. apply forallb_Forall, Forall_forall. intros s _ Hs. now apply wf_sigb_sound.
+Qed.
